@@ -103,3 +103,14 @@ Qed.
 
 Lemma wf_cols sch f : wf_frame sch f -> Forall (fun c => length c = flen f) f.
 Proof. intros [_ H]. exact H. Qed.
+
+(* a run of [spec_reads fin] reports no other error than [fin] *)
+Lemma spec_reads_errs fin e ds : forall bs p, In (RErr e) (spec_reads fin bs p ds) -> e = fin.
+Proof.
+  induction ds as [|d ds IH]; intros bs p H; simpl in H; [contradiction|].
+  destruct (Nat.eqb (flen p) 0).
+  - destruct bs as [|b bs].
+    + destruct H as [H|H]; [congruence|exact (IH _ _ H)].
+    + destruct (Nat.leb (flen b) d); destruct H as [H|H]; try discriminate; exact (IH _ _ H).
+  - destruct H as [H|H]; [discriminate|exact (IH _ _ H)].
+Qed.
